@@ -220,6 +220,12 @@ func runC07(w *World) *Result {
 	c07HeaderOrder(w, cf, r, "R-C07-decl")
 	c07Public(w, cf, r, "R-C07-public")
 	c07Predicate(w, r, "R-C07-public")
+	r.Rule("R-C07-frame", "locals of different functions never share an emitted name (a callee cannot see or change its caller's locals)", 2)
+	for _, role := range []string{"bash", "batch"} {
+		if b, err := BuildBackend(w, role); err == nil {
+			FrameRule(w, b, r, "R-C07-frame")
+		}
+	}
 	return r
 }
 
@@ -277,8 +283,15 @@ func (cf *ctxFacts) mutations(fn *ssa.Function) []ctxMutation {
 	return out
 }
 
-func c07Clone(w *World, cf *ctxFacts, r *Result) {
+func c07Clone(w *World, cf *ctxFacts, r *Result, rules ...string) {
+	ruleOverride := ""
+	if len(rules) > 0 {
+		ruleOverride = rules[0]
+	}
 	rule := "R-C07-clone"
+	if ruleOverride != "" {
+		rule = ruleOverride
+	}
 	// functions allowed to populate the received context, with the reason
 	exceptions := map[string]string{}
 	for _, fn := range w.Funcs("parser") {
@@ -1089,6 +1102,8 @@ func runC09(w *World) *Result {
 	c09PrefixApplied(w, r, "R-C09-prefix")
 	c07Public(w, cf, r, "R-C09-public")
 	c07Predicate(w, r, "R-C09-public")
+	r.Rule("R-C09-state", "what is emitted for one program does not depend on an earlier Transpile call on the same object (function definitions are never skipped because of remembered names)", 1)
+	c14TranspileState(w, r, "R-C09-state")
 	return r
 }
 
